@@ -168,3 +168,8 @@ Example C15_ex_runs :
   map (fun r => (fst r, p_cur (snd r), p_body (snd r))) (s_record (snd whole)) =
     [([65], 5, [1; 2; 3; 4; 5]); ([66], 1, [126])].
 Proof. vm_compute. repeat split; reflexivity. Qed.
+
+(* the length-prefixed HLJ header with a 250-byte name: header length 4+1+250+4+4 = 263 (beyond a byte) *)
+Example C15_ex_hlj_long_name :
+  lex 2 (Attach.wire 2 (I_chunk (repeat 65 250) 7 [1; 2; 3]) ++ [48; 49]) = L_chunk 263 (repeat 65 250) 7 3.
+Proof. vm_compute. reflexivity. Qed.
